@@ -372,3 +372,24 @@ def run_probe_isolated(prop, key, env):
     if not last:
         raise RuntimeError("probe produced no verdict: rc=%s %s %s" % (r.returncode, r.stdout[-300:], r.stderr[-300:]))
     return last[-1].split()[1] == "reproduces"
+
+
+INPUT_EXTS = {".edf": [".edf", ".edf", ".edif", ".edn", ".EDF", ".Edif"], ".v": [".v", ".v", ".vh", ".vm", ".V"],
+              ".eblif": [".eblif", ".eblif", ".blif", ".EBLIF"]}
+
+
+def input_variant(path, rng):
+    """The same text under another accepted file name: an alternative or upper-case extension, or packed into a single-file
+    zip archive named <file>.zip (all documented ways to hand a file to sdn.parse).  Returns the path to parse."""
+    import zipfile
+    base, ext = os.path.splitext(path)
+    new = base + rng.choice(INPUT_EXTS[ext])
+    if new != path:
+        os.replace(path, new)
+    if rng.random() < 0.12:
+        z = new + ".zip"
+        with zipfile.ZipFile(z, "w") as zf:
+            zf.write(new, os.path.basename(new))
+        os.remove(new)
+        return z
+    return new
